@@ -25,7 +25,8 @@ EXPLANATION = (
     "length of a fixed-size array is LLVMGetArrayLength of the pointee type of its storage address, not a quotient of sizes."
     " ADDED LATER: R7 the constness analyzer visits or rejects every sub-expression; R8 |x| of a fixed array is LLVMGetArrayLength of the pointee type; R9 a named length is only read from an integer constant; C09.R7 (string literal bytes) is shared."
     " ROUNDS 5-6: C07.R5-EQUALS-STRUCTURAL is shared (a length read off a parameter type is the caller's only if the coercion compared every dimension)."
-    " ROUND 7: R2-MEMBER-PADDING: in align_struct every member of known size is padded to its own alignment unconditionally before its size is added.")
+    " ROUND 7: R2-MEMBER-PADDING: in align_struct every member of known size is padded to its own alignment unconditionally before its size is added."
+    " ROUND 8: R10-PASS-KEEPS-NODE: every arm of the rewriting passes before the typer and after it (constness, function_calls, mutability, syntax, the two scoper passes; 171 arms) evaluates to self, the same variant rebuilt with the arm's own operator, or a Poison (an operator dropped in constant initialisers only makes a constant differ from the same expression in a function).")
 
 VT = "alpha::value_type::ValueType::"
 
@@ -345,6 +346,27 @@ def r7_constness_visit(run, F):
                "%s in a constant initialiser is rejected with %s" % (variant, err.split("::")[-1]))
 
 
+def r10_pass_keeps_node(run, F, modules=("analyzer::constness", "analyzer::function_calls", "analyzer::mutability", "analyzer::syntax",
+                                          "scoper::label_references", "scoper::variable_references"), floor=165):
+    """A rewriting pass hands back the node it was given: an arm for variant V evaluates to self, a V rebuilt with the arm's
+    own operator, or a Poison -- it never drops the operator or substitutes a child for the node."""
+    C = F.lib
+    n = 0
+    for b in sorted(C.bodies.values(), key=lambda b: b["npath"]):
+        tr = b.get("impl_trait") or ""
+        if not tr.endswith("::Analyzable") or "{closure" in b["npath"] or not any(("alpha::" + m + "::Analyzable") == tr for m in modules):
+            continue
+        mod = tr.split("::")[-2]
+        ty = norm_path(b.get("impl_self") or "").split("::")[-1]
+
+        def rep(key, ok, where, detail, sample, mod=mod, ty=ty):
+            run.ob("R10-PASS-KEEPS-NODE", "%s|%s|%s" % (mod, ty, key), ok, where,
+                   detail + " (a pass that runs over constant initialisers only, or over function bodies only, would otherwise make the two disagree)", sample)
+        n += visit.keeps_variant(F, b, rep, plain_fields=("op",))
+    run.ob("R10-PASS-KEEPS-NODE", "scan " + ",".join(m.split("::")[-1] for m in modules), n >= floor, "src/alpha/" + modules[0].replace("::", "/") + ".rs",
+           "%d match arms of rewriting passes examined (floor %d)" % (n, floor))
+
+
 def r8_array_len(run, F):
     """|x| of a fixed-size array is the element count of its LLVM array type (LLVMGetArrayLength), not a quotient of sizes:
     i1 elements occupy 8 bits each in an array but have a 1-bit type size, empty structs have size 0."""
@@ -402,6 +424,7 @@ def check(run):
     r7_constness_visit(run, F)
     r8_array_len(run, F)
     r9_named_length_guard(run, F)
+    r10_pass_keeps_node(run, F)
     # the length of a string literal passed as a view is the number of its bytes (shared with C09.R7)
     from props import c09
     c09.r7_string_bytes(run, F)
